@@ -203,6 +203,10 @@ impl<D> Serialize for DicomJson<&'_ InMemElement<D>> {
     /// - Either `"Value"` (as an array of values)
     ///   or `"InlineBinary"` (binary data in base64),
     ///   if the value is not empty.
+    ///   A value with no items
+    ///   (`PrimitiveValue::Empty`, a vector of length 0, a sequence without items)
+    ///   is empty, and is read back as `PrimitiveValue::Empty`
+    ///   (or as a sequence without items if the VR is SQ).
     ///
     /// The DICOM tag is not encoded,
     /// as it is typically serialized as the entry key within a data set.
@@ -215,14 +219,18 @@ impl<D> Serialize for DicomJson<&'_ InMemElement<D>> {
         serializer.serialize_entry("vr", vr.to_string())?;
 
         match self.0.value() {
+            DicomValue::Sequence(seq) if seq.items().is_empty() => {
+                // empty value: no "Value" (PS3.18 F.2.5)
+            }
             DicomValue::Sequence(seq) => {
                 serializer.serialize_entry("Value", &DicomJson(seq.items()))?;
             }
             DicomValue::PixelSequence(_seq) => {
                 //serializer.serialize_entry("Value", &DicomJson(seq))?;
             }
-            DicomValue::Primitive(PrimitiveValue::Empty) => {
-                // no-op
+            DicomValue::Primitive(v) if v.multiplicity() == 0 => {
+                // empty value (`Empty` or a vector without items):
+                // neither "Value" nor "InlineBinary" (PS3.18 F.2.5)
             }
             DicomValue::Primitive(v) => match vr {
                 VR::AE
